@@ -65,6 +65,37 @@ def marks(rec):
     return out
 
 
+def confirm_concurrent(run, replay):
+    """A difference seen only in the mode that runs two instances on two threads is kept only if it shows again: the case is replayed twice
+    more in processes of its own; what does not come back (a thread that could not be started on a busy machine, a scheduling accident of
+    the harness) is noted in the evidence and not reported - a violation that cannot be replayed has no replay to offer."""
+    import subprocess, tempfile
+    if replay or os.environ.get("VERIF_NO_CONFIRM"):
+        return
+    keep, dropped = [], 0
+    for what, rep, found in run.violations:
+        if not (found and isinstance(rep, dict) and rep.get("mode") == "beside"):
+            keep.append((what, rep, found))
+            continue
+        again = 0
+        with tempfile.TemporaryDirectory() as td:
+            f = os.path.join(td, "case.json")
+            json.dump({"property": PID, "what": what, "replay": rep}, open(f, "w"), default=str)
+            for _ in range(2):
+                env = dict(os.environ, VERIF_NO_CONFIRM="1", VERIF_OUT=td)
+                pr = subprocess.run([sys.executable, os.path.join(V.VERIF, "bin", "check"), PID, "--replay", f], stdout=subprocess.PIPE, stderr=subprocess.STDOUT, env=env, timeout=3000)
+                if b"VIOLATION" in pr.stdout:
+                    again += 1
+                    break
+        if again:
+            keep.append((what, rep, found))
+        else:
+            dropped += 1
+            run.notes.append("a difference seen once in the two-thread mode did not show again in two replays and is not reported: " + what[:200])
+    run.violations[:] = keep
+    run.cov["concurrent_differences_not_reproduced"] = dropped
+
+
 def main(replay=None):
     run = V.Run(PID, "proof")
     rng = run.rng
@@ -632,4 +663,5 @@ def main(replay=None):
     run.cov["trusted_base"] = ["Coq 8.16.1 kernel", "ExtrOcamlBasic extraction + ocaml/api_driver.ml", "harness/h_api.cpp (several VMs and threads in one process)",
                                "translators/statics.py: nm on the objects; the classification of each static (Mode / Registry / Scratch / Constant) in API/IsoDefs.v is read off the source, not proved",
                                "programs of vmcommon.Gen are taken to touch no process state (they use no toFixed / __COUNTER__)"]
+    confirm_concurrent(run, replay)
     return run.finish()
